@@ -179,7 +179,7 @@ def variance_between_zero_and_prior(h, n):
 
 
 def _real_kernel(h, cv, key, n, d):
-    spec = {"SE": "SE", "RQ": "RQ", "SE+WN": ("sum", ["SE", "WN"]), "SE+HN": ("sum", ["SE", "HN"]), "CP2": ("cp", ["SE", "SE"])}[key]
+    spec = {"SE": "SE", "RQ": "RQ", "SE+WN": ("sum", ["SE", "WN"]), "SE+HN": ("sum", ["SE", "HN"]), "CP2": ("cp", ["SE", "SE"]), "CP3": ("cp", ["SE", "SE", "SE"])}[key]
     K = gc.build_kernel(cv, spec)
     p = gc.n_params(spec, n, d)
     K.bounds = [(-5.0, 5.0)] * p
@@ -187,7 +187,7 @@ def _real_kernel(h, cv, key, n, d):
 
 
 QR = [dict(key="SE", mean="const", n=2, d=1), dict(key="SE+WN", mean="lin", n=2, d=1), dict(key="SE+HN", mean="const", n=2, d=2),
-      dict(key="RQ", mean="quad", n=2, d=1)]
+      dict(key="RQ", mean="quad", n=2, d=1), dict(key="RQ", mean="const", n=2, d=2)]
 TR = [dict(key="CP2", mean="const", n=2, d=1), dict(key="SE", mean="lin", n=2, d=2), dict(key="SE+HN", mean="quad", n=2, d=2),
       dict(key="SE+WN", mean="const", n=2, d=2)]
 
